@@ -465,6 +465,9 @@ func (s *lockingStream) Gen(r *tr.Rng) *tr.Op {
 		s.setup(r)
 		return s.pop()
 	}
+	if r.Chance(3) {
+		return lockParamsOp(r) // what the genesis validation admits (the keeper logic relies on validated parameters)
+	}
 	// one block
 	s.height++
 	s.now += int64(tr.Pick(r, 0, 1, 5, 5, 7, 30)) * 1e9
